@@ -5,7 +5,7 @@ from __future__ import annotations
 
 from sa.guards import CountResolver
 from sa.cfront import LIB_TUS
-from . import lib_guards, lib_module, lib_gate, lib_err, lib_file, lib_taint, lib_mem, lib_stats, lib_schema
+from . import scopes, lib_guards, lib_module, lib_gate, lib_err, lib_file, lib_taint, lib_mem, lib_stats, lib_schema
 
 LEVEL = "other"
 EXPLANATION = ("Static analysis of /repo's current C and Python source (clang type-checked AST, Python ast): "
@@ -42,3 +42,4 @@ def run(ctx):
         "clang-14's AST reflects the code that setup.py compiles (same include paths, -std=c99)",
         "libc and CPython API functions behave as documented",
     ]
+    lib_mem.c_lints(ctx, ctx.program(), scopes.lib_scope("C09"))
